@@ -504,6 +504,12 @@ Proof.
   destruct l as [|a l]; cbn in *; [tauto|]. auto.
 Qed.
 
+Lemma skipn_add {A} (l : list A) a b : skipn a (skipn b l) = skipn (b + a) l.
+Proof.
+  revert l; induction b as [|b IH]; intros l; cbn; [reflexivity|].
+  destruct l as [|x l]; [now rewrite skipn_nil|]. apply IH.
+Qed.
+
 Section Polls.
 Variable F : Type.
 Variable read : list ascii -> option exn * list F * Z.
@@ -559,6 +565,72 @@ Proof.
   - rewrite <- Hsplit. rewrite <- (map_length fsize frames). apply nfit_le_length.
   - rewrite <- Hsplit. rewrite bytes_of_sum, <- firstn_map. apply nfit_sum_le.
   - exact Hnd.
+Qed.
+
+(* number of frames handed out after the last poll of [cuts] (k0 before the first) *)
+Definition upto (sizes : list nat) (k0 : nat) (cuts : list nat) : nat :=
+  fold_left (fun _ c => nfit sizes c) cuts k0.
+
+Definition res_frames (r : option exn * list F * Z) : list F := snd (fst r).
+Definition res_err (r : option exn * list F * Z) : option exn := fst (fst r).
+
+Lemma expected_concat frames : forall cuts k0 lo,
+  (k0 <= nfit (map fsize frames) lo)%nat -> nondecr lo cuts ->
+  (k0 <= upto (map fsize frames) k0 cuts)%nat /\
+  concat (map res_frames (expected frames k0 cuts)) =
+    map value (firstn (upto (map fsize frames) k0 cuts - k0) (skipn k0 frames)) /\
+  Forall (fun r => res_err r = None) (expected frames k0 cuts).
+Proof.
+  induction cuts as [|c cuts IH]; intros k0 lo Hk Hnd.
+  - cbn. rewrite Nat.sub_diag. cbn. repeat split; auto.
+  - destruct Hnd as [Hc Hnd]. cbn [expected map concat upto fold_left].
+    set (k := nfit (map fsize frames) c).
+    assert (Hk0k : (k0 <= k)%nat).
+    { unfold k. etransitivity; [exact Hk|]. now apply nfit_mono. }
+    destruct (IH k c (le_n _) Hnd) as (Hku & Hcat & Hall).
+    fold (upto (map fsize frames) k cuts).
+    set (U := upto (map fsize frames) k cuts) in *.
+    split; [lia|]. split.
+    + rewrite Hcat. unfold res_frames at 1. cbn [fst snd].
+      replace (U - k0)%nat with ((k - k0) + (U - k))%nat by lia.
+      rewrite firstn_add, map_app. f_equal. f_equal. f_equal.
+      rewrite skipn_add. f_equal. lia.
+    + constructor; [reflexivity|exact Hall].
+Qed.
+
+Lemma upto_last sizes : forall cuts k0, cuts <> [] -> upto sizes k0 cuts = nfit sizes (last cuts 0%nat).
+Proof.
+  induction cuts as [|c cuts IH]; intros k0 Hne; [congruence|].
+  unfold upto. cbn [fold_left]. destruct cuts as [|c' cuts]; [reflexivity|].
+  fold (upto sizes (nfit sizes c) (c' :: cuts)). rewrite IH by discriminate. reflexivity.
+Qed.
+
+(* every poll returns exactly the frames completed since the previous poll (and the position
+   after all complete frames); nothing is raised; the concatenation of all polls is the list
+   of frames complete at the last poll: each once, in order *)
+Theorem polls_incremental frames cuts : Forall wf frames -> nondecr 0 cuts ->
+  let rs := polls read (render (concat frames)) 0 cuts in
+  rs = expected frames 0 cuts /\
+  Forall (fun r => res_err r = None) rs /\
+  concat (map res_frames rs) = map value (firstn (upto (map fsize frames) 0 cuts) frames).
+Proof.
+  intros Hwf Hnd. cbn zeta.
+  pose proof (polls_expected frames Hwf cuts 0%nat 0%nat (Nat.le_0_l _) (Nat.le_0_l _) Hnd) as He.
+  cbn [firstn] in He. change (Z.of_nat (bytes_of [])) with 0 in He. rewrite He.
+  destruct (expected_concat frames cuts 0%nat 0%nat (Nat.le_0_l _) Hnd) as (_ & Hcat & Hall).
+  split; [reflexivity|]. split; [exact Hall|].
+  rewrite Hcat. rewrite Nat.sub_0_r. reflexivity.
+Qed.
+
+(* ... and once the writer is done (the last poll sees the whole file) that is every frame *)
+Theorem polls_complete frames cuts : Forall wf frames -> nondecr 0 cuts -> cuts <> [] ->
+  (bytes_of frames <= last cuts 0)%nat ->
+  concat (map res_frames (polls read (render (concat frames)) 0 cuts)) = map value frames.
+Proof.
+  intros Hwf Hnd Hne Hlast.
+  destruct (polls_incremental frames cuts Hwf Hnd) as (_ & _ & Hcat). rewrite Hcat.
+  rewrite upto_last by assumption. rewrite nfit_all by (rewrite <- bytes_of_sum; exact Hlast).
+  rewrite map_length, firstn_all. reflexivity.
 Qed.
 
 End Polls.
@@ -909,3 +981,346 @@ Proof.
 Qed.
 
 End Lmp.
+
+(* ------------------------------------------------------------------ incremental polling of the two text readers *)
+
+Theorem xyz_incremental fok N frames cuts : Forall (xyz_wf fok N) frames -> nondecr 0 cuts ->
+  let rs := polls (xyz_read fok true) (render (concat frames)) 0 cuts in
+  rs = expected _ (xyz_value) frames 0 cuts /\
+  Forall (fun r => res_err _ r = None) rs /\
+  concat (map (res_frames _) rs) = map xyz_value (firstn (upto (map fsize frames) 0 cuts) frames).
+Proof.
+  apply (polls_incremental xyz_frame (xyz_read fok true) (xyz_wf fok N) xyz_value).
+  intros fr c H. now apply (xyz_cut fok N).
+Qed.
+
+Theorem xyz_complete_after_writer fok N frames cuts : Forall (xyz_wf fok N) frames ->
+  nondecr 0 cuts -> cuts <> [] -> (bytes_of frames <= last cuts 0)%nat ->
+  concat (map (res_frames _) (polls (xyz_read fok true) (render (concat frames)) 0 cuts)) =
+  map xyz_value frames.
+Proof.
+  apply (polls_complete xyz_frame (xyz_read fok true) (xyz_wf fok N) xyz_value).
+  intros fr c H. now apply (xyz_cut fok N).
+Qed.
+
+Theorem lmp_incremental fok N frames cuts : (1 <= N)%nat -> Forall (lmp_wf fok N) frames ->
+  nondecr 0 cuts ->
+  let rs := polls (lmp_read fok true) (render (concat frames)) 0 cuts in
+  rs = expected _ (lmp_value N) frames 0 cuts /\
+  Forall (fun r => res_err _ r = None) rs /\
+  concat (map (res_frames _) rs) = map (lmp_value N) (firstn (upto (map fsize frames) 0 cuts) frames).
+Proof.
+  intros HN. apply (polls_incremental lmp_frame (lmp_read fok true) (lmp_wf fok N) (lmp_value N)).
+  intros fr c H. now apply (lmp_cut fok N HN).
+Qed.
+
+Theorem lmp_complete_after_writer fok N frames cuts : (1 <= N)%nat -> Forall (lmp_wf fok N) frames ->
+  nondecr 0 cuts -> cuts <> [] -> (bytes_of frames <= last cuts 0)%nat ->
+  concat (map (res_frames _) (polls (lmp_read fok true) (render (concat frames)) 0 cuts)) =
+  map (lmp_value N) frames.
+Proof.
+  intros HN. apply (polls_complete lmp_frame (lmp_read fok true) (lmp_wf fok N) (lmp_value N)).
+  intros fr c H. now apply (lmp_cut fok N HN).
+Qed.
+
+(* ------------------------------------------------------------------ the TRR polling loop *)
+
+Definition yields (ev : list trr_event) : list nat :=
+  flat_map (fun e => match e with TYield i => [i] | _ => [] end) ev.
+
+Lemma yields_app a b : yields (a ++ b) = yields a ++ yields b.
+Proof. unfold yields. apply flat_map_app. Qed.
+
+Definition lay_ok (h : Z) (lay : layout) : Prop := Forall (fun fd => fst fd = h /\ 0 <= snd fd) lay.
+
+(* offset of frame k *)
+Definition off (lay : layout) (k : nat) : Z := layout_size (firstn k lay).
+
+(* a read stays inside the bytes that were on disk when it was made, starts at a frame (or
+   data) boundary and has exactly the length of that header / data block *)
+Definition ev_safe (h : Z) (lay : layout) (e : trr_event) : Prop :=
+  match e with
+  | TReadHeader a l s => a + l <= s /\ exists k, (k < length lay)%nat /\ a = off lay k /\ l = h
+  | TReadData a l s => a + l <= s /\ exists k d, nth_error lay k = Some (h, d) /\ a = off lay k + h /\ l = d
+  | TYield i => (i < length lay)%nat
+  | TGarbage _ => False
+  end.
+
+Lemma layout_size_app a b : layout_size (a ++ b) = layout_size a + layout_size b.
+Proof. unfold layout_size. induction a as [|[x y] a IH]; cbn [app fold_right fst snd]; lia. Qed.
+
+Lemma layout_size_cons x y l : layout_size ((x, y) :: l) = x + y + layout_size l.
+Proof. reflexivity. Qed.
+
+Section Trr.
+Variables head h : Z.
+Variable lay : layout.
+Hypothesis h_pos : 0 < h.
+Hypothesis h_head : h <= head.
+Hypothesis Hlay : lay_ok h lay.
+Local Notation n := (length lay).
+Local Notation total := (layout_size lay).
+
+Lemma lay_ok_nonneg l : lay_ok h l -> 0 <= layout_size l.
+Proof.
+  induction 1 as [|[x y] l [Hx Hy] _ IH]; [cbn; lia|]. cbn [fst snd] in *.
+  rewrite layout_size_cons. lia.
+Qed.
+
+Lemma lay_ok_firstn k l : lay_ok h l -> lay_ok h (firstn k l).
+Proof.
+  unfold lay_ok. rewrite !Forall_forall. intros H x Hx. apply H. eapply firstn_In'; eauto.
+Qed.
+
+Lemma lay_ok_skipn k l : lay_ok h l -> lay_ok h (skipn k l).
+Proof.
+  unfold lay_ok. rewrite !Forall_forall. intros H x Hx. apply H. eapply skipn_In'; eauto.
+Qed.
+
+Lemma lay_ok_nth k x d : nth_error lay k = Some (x, d) -> x = h /\ 0 <= d.
+Proof.
+  intros H. apply nth_error_In in H. pose proof Hlay as HL. unfold lay_ok in HL.
+  rewrite Forall_forall in HL. exact (HL _ H).
+Qed.
+
+Lemma off_0 : off lay 0 = 0.
+Proof. reflexivity. Qed.
+
+Lemma off_all : off lay n = total.
+Proof. unfold off. now rewrite firstn_all. Qed.
+
+Lemma off_le_total k : off lay k <= total.
+Proof.
+  unfold off. rewrite <- (firstn_skipn k lay) at 2. rewrite layout_size_app.
+  pose proof (lay_ok_nonneg _ (lay_ok_skipn k lay Hlay)). lia.
+Qed.
+
+Lemma firstn_S_nth {A} (l : list A) k x : nth_error l k = Some x -> firstn (S k) l = firstn k l ++ [x].
+Proof.
+  revert l; induction k as [|k IH]; intros l H; destruct l as [|a l]; try discriminate.
+  - cbn in H. injection H as ->. reflexivity.
+  - cbn in H. change (firstn (S (S k)) (a :: l)) with (a :: firstn (S k) l).
+    change (firstn (S k) (a :: l)) with (a :: firstn k l). cbn [app]. f_equal. now apply IH.
+Qed.
+
+Lemma off_S k d : nth_error lay k = Some (h, d) -> off lay (S k) = off lay k + h + d.
+Proof.
+  intros H. unfold off. rewrite (firstn_S_nth lay k _ H), layout_size_app, layout_size_cons.
+  cbn. lia.
+Qed.
+
+Lemma nth_lt k d : nth_error lay k = Some (h, d) -> (k < n)%nat.
+Proof. intros H. apply nth_error_Some. congruence. Qed.
+
+Lemma nth_ex k : (k < n)%nat -> exists d, nth_error lay k = Some (h, d) /\ 0 <= d.
+Proof.
+  intros H. destruct (nth_error lay k) as [[x d]|] eqn:E.
+  - destruct (lay_ok_nth k x d E) as [-> Hd]. eauto.
+  - apply nth_error_None in E. lia.
+Qed.
+
+(* a whole header fits below [size <= total] at offset [off k] only if frame k exists *)
+Lemma off_room k size : (k <= n)%nat -> off lay k + h <= size -> size <= total -> (k < n)%nat.
+Proof.
+  intros Hk H1 H2. destruct (Nat.eq_dec k n) as [->|]; [|lia]. rewrite off_all in H1. lia.
+Qed.
+
+Lemma frame_at_gen : forall l, lay_ok h l -> forall k o i x d, nth_error l k = Some (x, d) ->
+  frame_at l o i (o + layout_size (firstn k l)) = Some ((i + k)%nat, x, d).
+Proof.
+  induction 1 as [|[x0 d0] l [Hx Hd] Hl IH]; intros k o i x d Hn; [destruct k; discriminate|].
+  cbn [fst snd] in *. destruct k as [|k].
+  - cbn in Hn. injection Hn as -> ->. cbn [firstn frame_at].
+    change (layout_size []) with 0. rewrite Z.add_0_r, Z.eqb_refl, Nat.add_0_r. reflexivity.
+  - cbn in Hn. cbn [firstn frame_at]. rewrite layout_size_cons.
+    pose proof (lay_ok_nonneg _ (lay_ok_firstn k l Hl)) as Hnn.
+    destruct (Z.eqb_spec (o + (x0 + d0 + layout_size (firstn k l))) o) as [E|_]; [lia|].
+    replace (o + (x0 + d0 + layout_size (firstn k l))) with ((o + x0 + d0) + layout_size (firstn k l)) by lia.
+    rewrite (IH k (o + x0 + d0) (S i) x d Hn). do 2 f_equal. f_equal. lia.
+Qed.
+
+Lemma frame_at_off k d : nth_error lay k = Some (h, d) -> frame_at lay 0 0%nat (off lay k) = Some (k, h, d).
+Proof.
+  intros H. pose proof (frame_at_gen lay Hlay k 0 0%nat h d H) as E. cbn [Z.add Nat.add] in E.
+  exact E.
+Qed.
+
+(* the loop is either between frames (k frames handed out) or has read header k and waits
+   for its data *)
+Inductive tinv : trr_state -> nat -> Prop :=
+| TA k hs : (k <= n)%nat -> (hs = 0 \/ hs = h) -> tinv (mkT (off lay k) hs None false) k
+| TP k d : nth_error lay k = Some (h, d) -> tinv (mkT (off lay k + h) h (Some (k, d)) false) k.
+
+Lemma trr_observe_inv st k size : tinv st k -> size <= total ->
+  exists k', tinv (fst (trr_observe head lay st size)) k' /\
+             Forall (ev_safe h lay) (snd (trr_observe head lay st size)) /\
+             (k <= k')%nat /\ yields (snd (trr_observe head lay st size)) = seq k (k' - k).
+Proof.
+  intros Hinv Hsz. destruct Hinv as [k hs Hk Hhs | k d Hn]; unfold trr_observe;
+    cbn [t_bad t_pend t_hs t_br].
+  - set (guard := if hs =? 0 then head else hs).
+    assert (Hg : h <= guard) by (unfold guard; destruct Hhs as [-> | ->]; cbn;
+                                  [lia|destruct (Z.eqb_spec h 0); lia]).
+    destruct (Z.geb_spec size (off lay k + guard)) as [Hge|Hlt].
+    + assert (Hkn : (k < n)%nat) by (apply (off_room k size); lia).
+      destruct (nth_ex k Hkn) as (d & Hn & Hd). rewrite (frame_at_off k d Hn).
+      destruct (Z.leb_spec (off lay k + h) size) as [_|?]; [|lia].
+      exists k. cbn [fst snd]. split; [now apply TP|]. split.
+      * constructor; [|constructor]. cbn. split; [lia|]. exists k. auto.
+      * split; [lia|]. rewrite Nat.sub_diag. reflexivity.
+    + exists k. cbn [fst snd]. split; [now apply TA|]. split; [constructor|].
+      split; [lia|]. rewrite Nat.sub_diag. reflexivity.
+  - destruct (lay_ok_nth k h d Hn) as [_ Hd]. pose proof (nth_lt k d Hn) as Hkn.
+    destruct (Z.geb_spec size (off lay k + h + d)) as [Hge|Hlt].
+    + exists (S k). cbn [fst snd]. split.
+      * rewrite <- (off_S k d Hn). apply TA; [lia|now right].
+      * split.
+        -- constructor; [|constructor; [exact Hkn|constructor]]. cbn. split; [lia|]. exists k, d. auto.
+        -- split; [lia|]. replace (S k - k)%nat with 1%nat by lia. reflexivity.
+    + exists k. cbn [fst snd]. split; [now apply TP|]. split; [constructor|].
+      split; [lia|]. rewrite Nat.sub_diag. reflexivity.
+Qed.
+
+Lemma seq_join a b c : (a <= b)%nat -> (b <= c)%nat -> seq a (b - a) ++ seq b (c - b) = seq a (c - a).
+Proof.
+  intros H1 H2. replace (c - a)%nat with ((b - a) + (c - b))%nat by lia.
+  rewrite seq_app. do 2 f_equal. lia.
+Qed.
+
+Lemma trr_run_inv : forall sizes st k, tinv st k -> Forall (fun s => s <= total) sizes ->
+  exists k', tinv (fst (trr_run head lay st sizes)) k' /\
+             Forall (ev_safe h lay) (snd (trr_run head lay st sizes)) /\
+             (k <= k')%nat /\ yields (snd (trr_run head lay st sizes)) = seq k (k' - k).
+Proof.
+  induction sizes as [|s sizes IH]; intros st k Hinv Hsz.
+  - exists k. cbn. rewrite Nat.sub_diag. repeat split; auto.
+  - inversion Hsz as [|? ? Hs Hrest]; subst. cbn [trr_run].
+    destruct (trr_observe_inv st k s Hinv Hs) as (k1 & Hinv1 & Hsafe1 & Hk1 & Hy1).
+    destruct (trr_observe head lay st s) as [st1 ev1]. cbn [fst snd] in *.
+    destruct (IH st1 k1 Hinv1 Hrest) as (k2 & Hinv2 & Hsafe2 & Hk2 & Hy2).
+    destruct (trr_run head lay st1 sizes) as [st2 ev2]. cbn [fst snd] in *.
+    exists k2. split; [exact Hinv2|]. split; [apply Forall_app; auto|]. split; [lia|].
+    rewrite yields_app, Hy1, Hy2. now apply seq_join.
+Qed.
+
+Lemma trr_remaining_all : forall fuel k, (k <= n)%nat -> (n - k < fuel)%nat ->
+  fst (trr_remaining fuel lay (off lay k) total) = total /\
+  Forall (ev_safe h lay) (snd (trr_remaining fuel lay (off lay k) total)) /\
+  yields (snd (trr_remaining fuel lay (off lay k) total)) = seq k (n - k).
+Proof.
+  induction fuel as [|f IH]; intros k Hk Hf; [lia|]. cbn [trr_remaining].
+  destruct (Z.geb_spec (off lay k) total) as [Hge|Hlt].
+  - assert (k = n).
+    { destruct (Nat.eq_dec k n) as [|Hne]; [assumption|].
+      destruct (nth_ex k ltac:(lia)) as (d & Hn & Hd).
+      pose proof (off_le_total (S k)) as H1. rewrite (off_S k d Hn) in H1. lia. }
+    subst k. rewrite Nat.sub_diag. cbn. rewrite off_all. repeat split; auto.
+  - assert (Hkn : (k < n)%nat).
+    { destruct (Nat.eq_dec k n) as [->|]; [rewrite off_all in Hlt; lia|lia]. }
+    destruct (nth_ex k Hkn) as (d & Hn & Hd). rewrite (frame_at_off k d Hn).
+    pose proof (off_le_total (S k)) as H1. rewrite (off_S k d Hn) in H1.
+    destruct (Z.leb_spec (off lay k + h + d) total) as [_|?]; [|lia].
+    rewrite <- (off_S k d Hn).
+    destruct (IH (S k) ltac:(lia) ltac:(lia)) as (Hb & Hsafe & Hy).
+    destruct (trr_remaining f lay (off lay (S k)) total) as [b ev]. cbn [fst snd] in *.
+    split; [exact Hb|]. split.
+    + constructor; [cbn; split; [lia|exists k; auto]|].
+      constructor; [cbn; split; [lia|exists k, d; auto]|].
+      constructor; [exact Hkn|exact Hsafe].
+    + replace (n - k)%nat with (S (n - S k)) by lia. cbn [seq]. rewrite <- Hy. reflexivity.
+Qed.
+
+Lemma trr_finish_all st k : tinv st k -> t_pend st = None ->
+  fst (trr_finish lay st total) = total /\
+  Forall (ev_safe h lay) (snd (trr_finish lay st total)) /\
+  yields (snd (trr_finish lay st total)) = seq k (n - k).
+Proof.
+  intros Hinv Hp. destruct Hinv as [k hs Hk Hhs | k d Hn]; [|discriminate].
+  unfold trr_finish. cbn [t_bad t_br].
+  destruct (Z.gtb_spec (total - off lay k) 0) as [Hgt|Hle].
+  - apply trr_remaining_all; lia.
+  - pose proof (off_le_total k) as H1.
+    assert (k = n).
+    { destruct (Nat.eq_dec k n) as [|Hne]; [assumption|].
+      destruct (nth_ex k ltac:(lia)) as (d & Hn & Hd).
+      pose proof (off_le_total (S k)) as H2. rewrite (off_S k d Hn) in H2. lia. }
+    subst k. rewrite Nat.sub_diag. cbn. rewrite off_all. repeat split; auto.
+Qed.
+
+Lemma tinv_init : tinv trr_init 0.
+Proof. unfold trr_init. rewrite <- off_0. apply TA; [lia|now left]. Qed.
+
+Lemma tinv_not_bad st k : tinv st k -> t_bad st = false.
+Proof. destruct 1; reflexivity. Qed.
+
+(* while GROMACS runs: whatever sizes getsize reports (never more than what will eventually
+   be written), every read lies inside the bytes on disk at that moment, starts at a
+   header / data boundary with exactly that block's length, no read ever goes wrong, and the
+   frames handed out are 0,1,2,... each once, in order *)
+Theorem trr_never_reads_past_size sizes : Forall (fun s => s <= total) sizes ->
+  t_bad (fst (trr_run head lay trr_init sizes)) = false /\
+  Forall (ev_safe h lay) (snd (trr_run head lay trr_init sizes)) /\
+  exists k, (k <= n)%nat /\ yields (snd (trr_run head lay trr_init sizes)) = seq 0 k.
+Proof.
+  intros Hs. destruct (trr_run_inv sizes trr_init 0%nat tinv_init Hs) as (k & Hinv & Hsafe & _ & Hy).
+  split; [eapply tinv_not_bad; eauto|]. split; [exact Hsafe|].
+  exists k. rewrite Nat.sub_0_r in Hy. split; [|exact Hy].
+  destruct Hinv as [? ? ? ?|? d Hn]; [assumption|apply nth_lt in Hn; lia].
+Qed.
+
+(* after GROMACS has exited (the loop notices it only between frames) reading the rest
+   hands out every remaining frame: all frames, each once, in order, and all bytes consumed *)
+Theorem trr_quiescent_complete sizes : Forall (fun s => s <= total) sizes ->
+  let st := fst (trr_run head lay trr_init sizes) in
+  t_pend st = None ->
+  fst (trr_finish lay st total) = total /\
+  Forall (ev_safe h lay) (snd (trr_finish lay st total)) /\
+  yields (snd (trr_run head lay trr_init sizes) ++ snd (trr_finish lay st total)) = seq 0 n.
+Proof.
+  intros Hs st Hp. unfold st in *.
+  destruct (trr_run_inv sizes trr_init 0%nat tinv_init Hs) as (k & Hinv & _ & _ & Hy).
+  destruct (trr_finish_all _ k Hinv Hp) as (Hb & Hsafe & Hy2).
+  split; [exact Hb|]. split; [exact Hsafe|].
+  rewrite yields_app, Hy, Hy2. rewrite Nat.sub_0_r.
+  assert (Hk : (k <= n)%nat) by (destruct Hinv as [? ? ? ?|? d Hn]; [assumption|apply nth_lt in Hn; lia]).
+  pose proof (seq_join 0 k n (Nat.le_0_l _) Hk) as E. rewrite !Nat.sub_0_r in E. exact E.
+Qed.
+
+End Trr.
+
+(* ------------------------------------------------------------------ the readers before the repair (lead L1) *)
+
+From Coq Require Import String.
+Local Open Scope string_scope.
+Definition str (s : String.string) : list ascii := String.list_ascii_of_string s.
+
+(* one xyz frame with one atom; the file cut two bytes before its end *)
+Definition l1_xyz_frame : list (list ascii) := [str "1"; str "c"; str "H 1.5 2.5 3.25"].
+
+Lemma l1_xyz_torn_value :
+  xyz_read py_float_ok false (firstn 18 (render l1_xyz_frame)) =
+  (None, [[[str "1.5"; str "2.5"; str "3.2"]]], 18).
+Proof. vm_compute. reflexivity. Qed.
+
+(* CP2K right-aligns the atom count: a cut inside the leading blanks *)
+Definition l1_xyz_frame2 : list (list ascii) := [str "  1"; str "c"; str "H 1.5 2.5 3.25"].
+
+Lemma l1_xyz_zero_division :
+  fst (fst (xyz_read py_float_ok false (firstn 1 (render l1_xyz_frame2)))) = Some EZeroDiv.
+Proof. vm_compute. reflexivity. Qed.
+
+(* LAMMPS: the last atom line complete except for its newline is accepted, the next poll
+   starts on the lone newline and returns nothing although a whole frame follows it *)
+Definition l1_lmp_frame : list (list ascii) :=
+  [str "ITEM: TIMESTEP"; str "0"; str "ITEM: NUMBER OF ATOMS"; str "1"; str "ITEM: BOX BOUNDS pp pp pp";
+   str "0 1"; str "0 1"; str "0 1"; str "ITEM: ATOMS id type x y z vx vy vz id";
+   str "1 1 0.5 1.5 2.5 3 4 5 1"].
+
+Definition l1_lmp_file : list ascii := render (List.app l1_lmp_frame l1_lmp_frame).
+Definition l1_lmp_len : nat := List.length (render l1_lmp_frame).
+
+Lemma l1_lmp_old_polls :
+  map (fun r => (List.length (snd (fst r)), snd r))
+      (polls (lmp_read py_float_ok false) l1_lmp_file 0 [(l1_lmp_len - 1)%nat; (2 * l1_lmp_len)%nat]) =
+  [(1%nat, Z.of_nat l1_lmp_len - 1); (0%nat, Z.of_nat l1_lmp_len)].
+Proof. vm_compute. reflexivity. Qed.
